@@ -117,54 +117,8 @@ fn tab_step_2x3() {
     std::mem::forget(t);
 }
 
-// ---------------------------------------------------------------- idx (C18: indexing kernel is total)
-// `IterableKind::read` walks a path of indexes through a nested constant array. Over a ragged three-level array
-// and EVERY index path of length 0..=3 (each index any usize): no panic, and Ok exactly on the paths that exist.
-// The error text (`format!` over the Display of the whole array) is irrelevant to totality of the walk and is
-// stubbed out: stub_iterable_fmt replaces <IterableKind as Display>::fmt.
-fn stub_iterable_fmt(_s: &crate::IterableKind, _f: &mut std::fmt::Formatter<'_>) -> std::fmt::Result {
-    Ok(())
-}
-fn stub_format(_a: std::fmt::Arguments<'_>) -> String {
-    String::new()
-}
-fn idx_shape() -> crate::IterableKind {
-    use crate::IterableKind as K;
-    K::Iterables(vec![K::Integers(vec![1, 2]), K::Integers(vec![3])])
-}
-fn idx_exists(n: usize, i: [usize; 3]) -> bool {
-    match n {
-        0 => true,
-        1 => i[0] < 2,
-        2 => (i[0] == 0 && i[1] < 2) || (i[0] == 1 && i[1] < 1),
-        _ => false,
-    }
-}
-// one harness per path length: the length is concrete (a symbolic Vec length makes `remove(0)` a symbolic memmove)
-macro_rules! idx_harness {
-    ($name:ident, $n:expr, $witness:expr) => {
-        #[kani::proof]
-        #[kani::unwind(5)]
-        #[kani::stub(<crate::primitives::iterable::IterableKind as std::fmt::Display>::fmt, stub_iterable_fmt)]
-        #[kani::stub(alloc::fmt::format, stub_format)]
-        fn $name() {
-            let a = idx_shape();
-            let i: [usize; 3] = kani::any();
-            let v: Vec<usize> = i[..$n].to_vec();
-            let r = a.read(v);
-            if $witness {
-                if r.is_ok() {
-                    assert!(false); // must be reported FAILED
-                }
-            } else {
-                assert!(r.is_ok() == idx_exists($n, i));
-            }
-            std::mem::forget(r);
-            std::mem::forget(a);
-        }
-    };
-}
-idx_harness!(idx_read_total_1, 1, false);
-idx_harness!(idx_read_total_2, 2, false);
-idx_harness!(idx_read_total_3, 3, false);
-idx_harness!(idx_reach_witness, 2, true);
+// (Harnesses over `IterableKind::read` - nested constant array, index path with each index any usize, Display of the
+// array and alloc::fmt::format stubbed out - were measured for C18 after seeded change C18-b and are not run: with a
+// symbolic path length 900 s / 10 GB without a verdict; with a concrete length, a two-level array and the non-final
+// index constrained to the out-of-range values 700 s without a verdict. `current = &v[i]` is a symbolic pointer as
+// soon as the guard is symbolic, and CBMC then explores the clone of every variant (graphs with their hash maps).)
